@@ -10,9 +10,8 @@ tvars == <<mvars, tid, l>>
 Traces == ndJsonDeserialize(IOEnv.TRACE_FILE)
 T == Traces[tid].ev
 C == Traces[tid].const
-Min2(a, b) == IF a < b THEN a ELSE b
 Lo == C.area[1]
-Hi == Min2(C.area[2], C.phys)
+Hi == C.area[2]          \* the area the tag declares (a tag may declare more than it has: reads fail there)
 Bud == C.budget
 
 TInit == tid \in 1..Len(Traces) /\ l = 1 /\ MInit
@@ -44,7 +43,7 @@ Why == CASE Ev.a = "Raise" -> <<"exception", Ev.exc, call>>
                                                      [] n = "len>cap" -> Res.len > Res.cap
                                                      [] n = "cap>area" -> Res.cap > Hi - Lo), call, Lo, Hi>>
          [] Ev.a \in {"Read", "ReadAt"} -> IF ncmd >= Bud THEN <<"budget", ncmd>> ELSE <<"repeat", Ev.u, call>>
-         [] Ev.a = "Retry" -> IF ncmd >= Bud THEN <<"budget", ncmd>> ELSE <<"retry", nretry>>
+         [] Ev.a = "Retry" -> IF ncmd >= Bud THEN <<"budget", ncmd>> ELSE <<"retry-after-answer", nretry>>
          [] OTHER -> IF ncmd >= Bud THEN <<"budget", ncmd>> ELSE <<"guard", call>>
 
 Stuck ==
